@@ -101,8 +101,9 @@ func reflCoreTypes() []protoreflect.MessageType {
 // ---------------------------------------------------------------- descriptors
 
 var reflFieldsCache = map[protoreflect.MessageDescriptor][]protoreflect.FieldDescriptor{}
+var reflDynFieldsCache = map[protoreflect.MessageDescriptor][]protoreflect.FieldDescriptor{}
 
-// reflFields returns the declared fields followed by the registered extensions.
+// reflFields returns the declared fields followed by the registered (generated) extensions.
 func reflFields(md protoreflect.MessageDescriptor) []protoreflect.FieldDescriptor {
 	if fs, ok := reflFieldsCache[md]; ok {
 		return fs
@@ -116,6 +117,31 @@ func reflFields(md protoreflect.MessageDescriptor) []protoreflect.FieldDescripto
 		fs = append(fs, xd)
 	}
 	reflFieldsCache[md] = fs
+	return fs
+}
+
+// reflFieldsM returns the fields and extensions to use with message m: dynamicpb identifies an
+// extension by the identity of its descriptor, and the shared fillers populate dynamicpb messages
+// with dynamicpb extension types (msgDynTypes), so a dynamicpb message is addressed with those.
+func reflFieldsM(m protoreflect.Message) []protoreflect.FieldDescriptor {
+	md := m.Descriptor()
+	if _, isDyn := m.(*dynamicpb.Message); !isDyn {
+		return reflFields(md)
+	}
+	if fs, ok := reflDynFieldsCache[md]; ok {
+		return fs
+	}
+	var fs []protoreflect.FieldDescriptor
+	fds := md.Fields()
+	for i := 0; i < fds.Len(); i++ {
+		fs = append(fs, fds.Get(i))
+	}
+	for _, xd := range msgExtensionsOf(md) {
+		if xt, err := msgDynTypes().FindExtensionByNumber(md.FullName(), xd.Number()); err == nil {
+			fs = append(fs, xt.TypeDescriptor())
+		}
+	}
+	reflDynFieldsCache[md] = fs
 	return fs
 }
 
@@ -278,7 +304,6 @@ type reflExec struct {
 	where string
 	// start of the last operation in ops / res
 	lastOp, lastRes int
-	fwe2            bool
 }
 
 func (x *reflExec) fail(what string, extra ...string) {
@@ -384,7 +409,7 @@ func reflCheckInvariants(x *reflExec, m protoreflect.Message) {
 		}
 		return true
 	})
-	for _, fd := range reflFields(md) {
+	for _, fd := range reflFieldsM(m) {
 		n := seen[fd.Number()]
 		has := m.Has(fd)
 		if n > 1 {
@@ -433,16 +458,6 @@ func reflCheckInvariants(x *reflExec, m protoreflect.Message) {
 		}
 		w := m.WhichOneof(od)
 		if cnt == 1 && (w == nil || w.Number() != pop.Number()) || cnt == 0 && w != nil {
-			if x.fl.name == "opaque" && od.IsSynthetic() && cnt == 1 && w == nil && pop.Message() != nil && !msgIsLazyField(pop) {
-				// finding FWE2: the synthetic oneof of a proto3-optional message field consults a
-				// presence bit that non-lazy message fields never set
-				if !x.fwe2 {
-					x.fwe2 = true
-					x.c.Known("FWE2", "C28", "opaque: WhichOneof of the synthetic oneof of a populated proto3-optional (non-lazy) message field returns nil")
-					x.c.Stat("known_FWE2")
-				}
-				continue
-			}
 			x.fail("WhichOneof inconsistent with Has: " + string(od.FullName()))
 		}
 	}
@@ -528,6 +543,24 @@ func reflGetValid(fd protoreflect.FieldDescriptor, v protoreflect.Value) int {
 	return -1
 }
 
+// reflFWE3Class: an unpopulated message-typed or repeated extension whose type is a dynamicpb
+// extension type: its zero value is the read-only empty *dynamicpb.Message / emptyList, which the
+// type's own InterfaceOf rejects.
+func reflFWE3Class(m protoreflect.Message, fd protoreflect.FieldDescriptor) bool {
+	if !fd.IsExtension() || !(reflIsMsg(fd) || fd.IsList()) || m.Has(fd) {
+		return false
+	}
+	xt := fd.(protoreflect.ExtensionTypeDescriptor).Type()
+	if !strings.HasPrefix(fmt.Sprintf("%T", xt), "dynamicpb.") {
+		return false
+	}
+	z := xt.Zero()
+	if fd.IsList() {
+		return !z.List().IsValid()
+	}
+	return !z.Message().IsValid()
+}
+
 func (x *reflExec) opGet(path []reflStep, w bool, fd protoreflect.FieldDescriptor, viaProto bool) {
 	code := "get"
 	if viaProto {
@@ -537,6 +570,16 @@ func (x *reflExec) opGet(path []reflStep, w bool, fd protoreflect.FieldDescripto
 		var v protoreflect.Value
 		if viaProto {
 			xt := fd.(protoreflect.ExtensionTypeDescriptor).Type()
+			if reflFWE3Class(m, fd) {
+				// finding FWE3: proto.GetExtension of an unset message-typed extension panics with a
+				// dynamicpb extension type (InterfaceOf type-checks the invalid zero message)
+				if reflPanics(func() { proto.GetExtension(m.Interface(), xt) }) {
+					x.c.Known("FWE3", "C28", "proto.GetExtension of an unpopulated message-typed or repeated extension with a dynamicpb extension type panics")
+					x.c.Stat("known_FWE3")
+					v = m.Get(fd)
+					return reflValueToks(fd, v, reflGetValid(fd, v))
+				}
+			}
 			v = xt.ValueOf(proto.GetExtension(m.Interface(), xt))
 		} else {
 			v = m.Get(fd)
@@ -938,7 +981,7 @@ func (x *reflExec) pickPath() ([]reflStep, protoreflect.Message) {
 	for depth := 0; depth < 3 && c.Intn(5) < 2; depth++ {
 		var cands []reflStep
 		var popd []reflStep
-		for _, fd := range reflFields(cur.Descriptor()) {
+		for _, fd := range reflFieldsM(cur) {
 			switch {
 			case reflIsMsg(fd):
 				st := reflStep{kind: 'F', fd: fd}
@@ -983,7 +1026,7 @@ func (x *reflExec) pickPath() ([]reflStep, protoreflect.Message) {
 // pickField prefers populated fields.
 func reflPickField(c *Ctx, cur protoreflect.Message, ok func(protoreflect.FieldDescriptor) bool) protoreflect.FieldDescriptor {
 	var all, pop []protoreflect.FieldDescriptor
-	for _, fd := range reflFields(cur.Descriptor()) {
+	for _, fd := range reflFieldsM(cur) {
 		if ok != nil && !ok(fd) {
 			continue
 		}
@@ -1102,9 +1145,9 @@ func (x *reflExec) genOp() {
 
 // ---------------------------------------------------------------- scripted corpus
 
-func reflFirst(md protoreflect.MessageDescriptor, n int, ok func(protoreflect.FieldDescriptor) bool) []protoreflect.FieldDescriptor {
+func reflFirst(m protoreflect.Message, n int, ok func(protoreflect.FieldDescriptor) bool) []protoreflect.FieldDescriptor {
 	var out []protoreflect.FieldDescriptor
-	for _, fd := range reflFields(md) {
+	for _, fd := range reflFieldsM(m) {
 		if len(out) < n && ok(fd) {
 			out = append(out, fd)
 		}
@@ -1116,16 +1159,16 @@ func reflFirst(md protoreflect.MessageDescriptor, n int, ok func(protoreflect.Fi
 var reflScripts = []func(x *reflExec){
 	// defaults of every field of the empty message, NewField, Mutable of everything
 	func(x *reflExec) {
-		for _, fd := range reflFields(x.fl.md) {
+		for _, fd := range reflFieldsM(x.top) {
 			x.opGet(nil, false, fd, false)
 			x.opHas(nil, false, fd, false)
 		}
-		for _, fd := range reflFields(x.fl.md) {
+		for _, fd := range reflFieldsM(x.top) {
 			x.opNewField(nil, false, fd)
 		}
 	},
 	func(x *reflExec) {
-		for _, fd := range reflFields(x.fl.md) {
+		for _, fd := range reflFieldsM(x.top) {
 			x.opMutable(nil, true, fd)
 			x.opGet(nil, false, fd, false)
 			x.opClear(nil, fd, false)
@@ -1133,13 +1176,13 @@ var reflScripts = []func(x *reflExec){
 	},
 	// every field: set, get, has, clear, get; zero values of implicit-presence fields
 	func(x *reflExec) {
-		for _, fd := range reflFields(x.fl.md) {
+		for _, fd := range reflFieldsM(x.top) {
 			x.opSet(nil, true, x.top, fd, false)
 			x.opGet(nil, false, fd, false)
 			x.opHas(nil, false, fd, false)
 		}
 		x.opRange(nil, false)
-		for _, fd := range reflFields(x.fl.md) {
+		for _, fd := range reflFieldsM(x.top) {
 			if !fd.IsList() && !fd.IsMap() && fd.Message() == nil {
 				z := reflElemZeroNonEnum(fd)
 				x.run("set", nil, true, append([]string{reflNum(fd), "1"}, reflSingularToks(fd, z)...), true, func(m protoreflect.Message) []string {
@@ -1149,7 +1192,7 @@ var reflScripts = []func(x *reflExec){
 				x.opHas(nil, false, fd, false)
 			}
 		}
-		for _, fd := range reflFields(x.fl.md) {
+		for _, fd := range reflFieldsM(x.top) {
 			x.opClear(nil, fd, false)
 			x.opGet(nil, false, fd, false)
 		}
@@ -1185,7 +1228,7 @@ var reflScripts = []func(x *reflExec){
 	// lists: Append, Truncate, Append, Set, Get, read-only empty list, out-of-range indexes
 	func(x *reflExec) {
 		kinds := map[string]bool{}
-		for _, fd := range reflFields(x.fl.md) {
+		for _, fd := range reflFieldsM(x.top) {
 			if !fd.IsList() {
 				continue
 			}
@@ -1221,7 +1264,7 @@ var reflScripts = []func(x *reflExec){
 	// maps
 	func(x *reflExec) {
 		n := 0
-		for _, fd := range reflFields(x.fl.md) {
+		for _, fd := range reflFieldsM(x.top) {
 			if !fd.IsMap() || n >= 6 {
 				continue
 			}
@@ -1249,7 +1292,7 @@ var reflScripts = []func(x *reflExec){
 	},
 	// extensions through proto.*Extension
 	func(x *reflExec) {
-		for _, fd := range reflFirst(x.fl.md, 40, func(fd protoreflect.FieldDescriptor) bool { return fd.IsExtension() }) {
+		for _, fd := range reflFirst(x.top, 40, func(fd protoreflect.FieldDescriptor) bool { return fd.IsExtension() }) {
 			x.opGet(nil, false, fd, true)
 			x.opHas(nil, false, fd, true)
 			x.opSet(nil, true, x.top, fd, true)
@@ -1266,7 +1309,7 @@ var reflScripts = []func(x *reflExec){
 	},
 	// sub-messages: writes through a read-only empty message panic; Mutable populates
 	func(x *reflExec) {
-		for _, fd := range reflFirst(x.fl.md, 4, reflIsMsg) {
+		for _, fd := range reflFirst(x.top, 4, reflIsMsg) {
 			p := []reflStep{{kind: 'F', fd: fd}}
 			sub := x.top.Get(fd).Message()
 			if f2 := reflPickField(x.c, sub, nil); f2 != nil {
@@ -1284,9 +1327,40 @@ var reflScripts = []func(x *reflExec){
 			}
 		}
 	},
+	// regression input of the repaired finding FWE2: members of synthetic oneofs (proto3 optional
+	// fields; witness opaque test3.TestAllTypes.optional_nested_message): Set / Mutable / Clear and a
+	// scalar set to its zero value; WhichOneof of the synthetic oneof is compared with Has after
+	// every operation by reflCheckInvariants
+	func(x *reflExec) {
+		for _, fd := range reflFieldsM(x.top) {
+			od := fd.ContainingOneof()
+			if od == nil || !od.IsSynthetic() {
+				continue
+			}
+			if reflIsMsg(fd) {
+				x.opMutable(nil, true, fd)
+				x.opHas(nil, false, fd, false)
+				x.opClear(nil, fd, false)
+				x.opSet(nil, true, x.top, fd, false)
+				x.opGet(nil, false, fd, false)
+				x.opClear(nil, fd, false)
+				x.opMutable(nil, true, fd)
+			} else {
+				z := reflElemZeroNonEnum(fd)
+				x.run("set", nil, true, append([]string{reflNum(fd), "1"}, reflSingularToks(fd, z)...), true, func(m protoreflect.Message) []string {
+					m.Set(fd, z)
+					return nil
+				})
+				x.opHas(nil, false, fd, false)
+				x.opClear(nil, fd, false)
+				x.opSet(nil, true, x.top, fd, false)
+			}
+		}
+		x.opRange(nil, false)
+	},
 	// finding FWE1: Truncate beyond the length, within the capacity
 	func(x *reflExec) {
-		for _, fd := range reflFirst(x.fl.md, 1, func(fd protoreflect.FieldDescriptor) bool { return fd.IsList() }) {
+		for _, fd := range reflFirst(x.top, 1, func(fd protoreflect.FieldDescriptor) bool { return fd.IsList() }) {
 			for k := 0; k < 3; k++ {
 				x.opList(nil, true, x.top, fd, false, reflLAppend, 0)
 			}
@@ -1324,7 +1398,13 @@ func reflInit(c *Ctx, fl reflFlavour) (protoreflect.Message, []string) {
 		return m, msgDump(m)
 	}
 	m2 := fl.new()
-	if err := (proto.UnmarshalOptions{AllowPartial: true}).Unmarshal(b, m2.Interface()); err != nil {
+	uo := proto.UnmarshalOptions{AllowPartial: true}
+	if _, isDyn := m2.(*dynamicpb.Message); isDyn {
+		// dynamicpb identifies extensions by descriptor identity: decode with the dynamicpb
+		// extension types that the fillers and the operations use
+		uo.Resolver = msgDynTypes()
+	}
+	if err := uo.Unmarshal(b, m2.Interface()); err != nil {
 		c.Stat("init_decode_fails")
 		return m, msgDump(m)
 	}
